@@ -72,6 +72,9 @@ func (c06) Gen(r *kern.Rng, tier string, idx int) *Trace {
 		n := scen.GenLen(r, 20000)
 		sc.Data.Len += n
 		sc.Ops = append(sc.Ops, scen.WOp{K: "r"})
+		if r.Pct(20) {
+			sc.Ops = append(sc.Ops, scen.WOp{K: "r"}) // pool idiom: Reset on put, Reset again on get
+		}
 		sc.Ops = append(sc.Ops, GenOps(r, n, r.Pick(0, 20), 30)...)
 	}
 	tr := &Trace{Property: "C06", Family: "W-plain <-> R-valid across implementations", W: sc}
